@@ -96,6 +96,9 @@ def run(ctx) -> None:
                   f"{v} ls_tags template lists tags of all branches", f"vcs template {v}/ls_tags is restricted", repr(ta), loc="src/bumpver/vcs.py")
 
     listing_failure_rule(ctx, "R1")
+    # no tag is seen at all where the VCS is not detected
+    from checks.c11 import vcs_marker_rule
+    vcs_marker_rule(ctx, "R1")
 
     # ---------------------------------------------------------------- R1 _update_cfg_from_vcs
     uc = prog.function("cli._update_cfg_from_vcs")
